@@ -9,7 +9,9 @@ Two kinds of cases:
 * state-machine cases: an alias configuration on a plain or a spec class, an
   initial host tree, and an operation sequence over
   {read/write/delete alias, read/write/delete target, delete/overwrite the first
-  path segment, deepcopy, copy-on-write helpers on alias or target};
+  path segment, deepcopy, copy-on-write helpers on alias or target, and — on spec classes — the generated helpers on
+  the alias attribute itself: with_/update_/transform_/reset_<alias>, copying and _inplace=True, with whole values,
+  nested keywords and attribute transforms (lines hw/hu/ht/hr; Lean: `HOp`, `hstep`)};
   after every operation the result (value / exception class / number of warnings)
   and the full state of the instance and of every earlier instance are compared.
 * parser cases: a path string; compared observable = does `Alias(s)` construct
@@ -35,6 +37,11 @@ REQUIRED_THEOREMS = [
         "deprecated_same", "copy_carries", "olds_frame", "cow_is_copy_then_write",
         "path_roundtrip_render", "path_roundtrip_parse", "path_accepted_iff", "path_rejected_iff",
         "path_roundtrip_segs", "identifier_shortcut",
+        # generated helpers on the alias attribute (with_/update_/transform_/reset_<alias>)
+        "helper_leaves_host", "helper_leaves_target", "x_host_independent", "x_alias_ops_leave_host",
+        "helper_is_assignment", "helper_failure_atomic", "helper_success_state", "update_shadows_nested",
+        "transform_shadows_nested", "helper_passthrough_reaches_target", "x_olds_frame",
+        "x_passthrough_never_overrides", "x_deprecated_same",
     )
 ]
 OPEN_STATEMENTS = [
@@ -52,6 +59,12 @@ RULE = (
     "every value position (alias writes by assignment / with_<alias> / constructor keyword, target writes, initial "
     "target value, fallbacks, prefix overwrites, item keys) draws from pools holding falsy members of each type "
     "(0, '', None, []) next to truthy ones, in the single-op, exhaustive-sequence and random parts alike; "
+    "on spec hosts also the generated helpers on the alias attribute (with_/update_/transform_/reset_<alias>, copying "
+    "and _inplace=True, whole values / nested keywords / whole-value and attribute transforms) with the alias annotated "
+    "Any, int or the nested spec class, targets holding ints, lists or nested instances: every helper line from every "
+    "(passthrough, annotation, kind of target value, pre-state in {mirroring, overridden, target missing, copied}) "
+    "followed by read alias / read target / reset in place / read alias, ALL sequences of two helper alphabets up to the "
+    "tier's length for sampled configurations, and mixed into the random sequences (30 % of the ops on spec hosts); "
     "non-trivial = the op changed the state, raised, produced a fallback copy or a warning; distinct = distinct "
     "(configuration, pre-state, op). parser cases = all strings over a 9-symbol alphabet up to the tier's length, "
     "rendered random segment lists (both quote styles, escapes, glued attributes) and 1-2 character mutations of them."
@@ -62,11 +75,15 @@ ASSUMPTIONS = [
     "attribute names on the path are not names every object has (no dunder names, no dict/int method names) and differ from the alias's own name (self-reference -> RecursionError -> ValueError is outside the model)",
     "hosts are trees (no object is reachable twice); transforms are pure functions of the value",
     "frozen spec classes are outside C18's quantifier (see docs/C18.md: with_<alias> on a frozen class raises FrozenInstanceError)",
+    "helper calls (with_/update_/transform_<alias>) are well-formed for the annotation: nested keywords and omitted positional arguments only when the alias is annotated with the nested spec class; keyword names are attributes of that class; values handed to or read by the helpers are not dicts (a dict would be read as constructor arguments) and nested `d` attributes only ever receive dicts; transforms are the identity, `+ k` and constants",
     "copy-on-write helpers on the target are with_x/reset_x (plain path), update_sub(x=…) (dotted), with_/without_d_item (item); they are only issued while the path prefix exists",
 ]
 TRUSTED_EXTRA = ["direct attribute/item access of CPython used by the harness to read, write and delete the target"]
 
 OVERRIDE_PREFIX = "__spec_classes_Alias_"
+# library files outside the property's anchors whose change directs the deeper (escalation) run: the generated
+# helpers on the alias attribute live there
+SOURCE_FILES = ["spec_classes/methods/scalar.py", "spec_classes/utils/mutation.py"]
 ERRS = ("FrozenInstanceError", "TypeError", "ValueError", "KeyError", "IndexError", "AttributeError", "RuntimeError")
 
 _S = {}
@@ -192,6 +209,11 @@ def py_val(tok, case):
         return [int(x) for x in tok[1:].split(",") if x]
     if tok == "D":
         return {}
+    if tok[0] == "N":  # N<decl>:<n> = a nested instance with x = n and d = {"m": n} (a mutable object inside)
+        o = _S["sub_spec"]() if tok[1] == "x" else _S["sub_plain"]()
+        o.x = int(tok.split(":")[1])
+        o.d = {"m": o.x}
+        return o
     if tok[0] == "O":
         return _S["sub_spec"]() if case["host"] == "spec" else _S["sub_plain"]()
     raise ValueError(tok)
@@ -203,7 +225,10 @@ def _base_classes():
     from spec_classes import spec_class
 
     class PObj:
-        pass
+        __hash__ = None
+
+        def __eq__(self, other):  # by content, as spec-class instances compare
+            return type(other) is type(self) and vars(other) == vars(self)
 
     @spec_class
     class SSub:
@@ -245,7 +270,7 @@ def host_class(case):
         cls = PHost
     else:
         SSub = _S["sub_spec"]
-        ann = int if case["chk"] else Any
+        ann = {0: Any, 1: int, 2: SSub}[case["chk"]]  # 2: annotated with the nested spec class (keyword helpers)
         ns = {"__annotations__": {"x": int, "sub": SSub, "d": dict, "al": ann}, "al": alias, "__qualname__": "SHost"}
         with warnings.catch_warnings():
             warnings.simplefilter("ignore")
@@ -309,6 +334,44 @@ def show_inst(h):
     return f"ov={show_val(ov[0]) if ov else '-'} host={show_val(h)} al={al}"
 
 
+HELPER_OPS = ("hw", "hu", "ht", "hr")
+
+
+def xf_fn(tok, case):
+    """the transform functions of the helper lines: id | a<k> (add k) | c<val> (constant)"""
+    if tok == "id":
+        return lambda v: v
+    if tok[0] == "a":
+        k = int(tok[1:])
+        return lambda v: v + k
+    if tok[0] == "c":
+        return lambda v: py_val(tok[1:], case)
+    raise ValueError(tok)
+
+
+def parse_pairs(s, f):
+    if s == "-":
+        return {}
+    return {k: f(v) for k, v in (t.split("=", 1) for t in s.split(";"))}
+
+
+def helper_call(h, op, case):
+    """issue one generated helper on the alias attribute of `h`; -> the instance it returns"""
+    name, io = op[0], op[1]
+    inplace = io == "i"
+    if name == "hr":
+        return h.reset_al(_inplace=inplace)
+    if name in ("hw", "hu"):
+        args = [] if op[2] == "-" else [py_val(op[2], case)]
+        kw = parse_pairs(op[3], lambda t: py_val(t, case))
+        return (h.with_al if name == "hw" else h.update_al)(*args, _inplace=inplace, **kw)
+    if name == "ht":
+        args = [] if op[2] == "-" else [xf_fn(op[2], case)]
+        kw = parse_pairs(op[3], lambda t: xf_fn(t, case))
+        return h.transform_al(*args, _inplace=inplace, **kw)
+    raise ValueError(op)
+
+
 class Run:
     """One case executing on the real code."""
 
@@ -356,7 +419,9 @@ class Run:
     def read_alias(self):
         r = self.cur.al
         self.last = r
-        if isinstance(self.fb, list) and isinstance(r, list) and r == self.fb:
+        # a fallback copy: equal to the fallback, and neither the local value nor the target object itself
+        if (isinstance(self.fb, list) and isinstance(r, list) and r == self.fb and r is not override_of(self.cur)
+                and r is not observe_target(self.cur, self.segs)):
             if r is self.fb:
                 return f"fresh {show_val(r)} #0"
             for n, c in enumerate(self.copies):
@@ -375,6 +440,14 @@ class Run:
     def op(self, op):
         name = op[0]
         h, segs, case = self.cur, self.segs, self.case
+        if name in HELPER_OPS:
+            res = helper_call(h, op, case)
+            if op[1] == "i":
+                if res is not h:
+                    raise RuntimeError("in-place helper returned another instance")
+            else:
+                self.new_cur(res)
+            return "ok"
         v = py_val(op[1], case) if len(op) > 1 else None
         if name == "ra":
             return self.read_alias()
@@ -511,6 +584,92 @@ def snapshot(h):
     return show_val(h), [show_val(x) for k, x in vars(h).items() if k.startswith(OVERRIDE_PREFIX)]
 
 
+def _children(o):
+    if isinstance(o, dict):
+        return [(f"[{k!r}]", x) for k, x in o.items()]
+    if isinstance(o, (list, tuple)):
+        return [(f"[{n}]", x) for n, x in enumerate(o)]
+    if hasattr(o, "__dict__") and not isinstance(o, type):
+        return [("." + k, x) for k, x in vars(o).items() if not k.startswith("__spec_class") and not k.startswith(OVERRIDE_PREFIX)]
+    return []
+
+
+def ident_map(o, path="", out=None):
+    """(path, identity) of every mutable object reachable from `o` (the local override of the alias left out)"""
+    out = [] if out is None else out
+    if isinstance(o, (dict, list)) or hasattr(o, "__dict__"):
+        out.append((path, id(o)))
+        for step, x in _children(o):
+            ident_map(x, path + step, out)
+    return out
+
+
+def override_of(h):
+    from spec_classes import MISSING
+
+    ov = [x for k, x in vars(h).items() if k.startswith(OVERRIDE_PREFIX)]
+    return ov[0] if ov else MISSING
+
+
+def mutable_ids(o):
+    from spec_classes import MISSING
+
+    return set() if o is MISSING else {i for _p, i in ident_map(o)}
+
+
+def alias_view(h):
+    with warnings.catch_warnings():
+        warnings.simplefilter("ignore")
+        try:
+            return ("value", h.al)
+        except Exception as e:  # noqa: BLE001
+            return ("raises", err_name(e))
+
+
+def ref_helper_value(case, op, view):
+    """What the property text + the helpers' contract ("identical except with <alias> or its attributes
+    updated / transformed") say a with_/update_/transform_ helper assigns to the alias:
+    ('value', v) | ('raises',) (the arguments cannot be applied to the value) | None (silent: the current value is
+    missing, or the value is default-constructed)."""
+    from spec_classes import MISSING
+
+    name = op[0]
+    if name == "ht" or op[2] == "-":
+        if name == "hw":
+            return None  # with_<alias>() / with_<alias>(**attrs) construct a value: another property
+        if view[0] != "value":
+            return None
+        value = copy.deepcopy(view[1])
+    else:
+        value = copy.deepcopy(py_val(op[2], case))
+    try:
+        if name == "ht":
+            if op[2] != "-":
+                value = xf_fn(op[2], case)(value)
+            for k, g in parse_pairs(op[3], lambda t: xf_fn(t, case)).items():
+                r = g(getattr(value, k, MISSING))
+                if r is not MISSING:
+                    setattr(value, k, r)
+        else:
+            for k, x in parse_pairs(op[3], lambda t: py_val(t, case)).items():
+                setattr(value, k, x)
+    except Exception:  # noqa: BLE001
+        return ("raises",)
+    return ("value", value)
+
+
+def noop_inplace(op):
+    """an in-place helper call that hands the current value back untouched (the alias then holds the very object
+    it mirrored; nothing is modified)"""
+    if op[1] != "i":
+        return False
+    if op[0] == "hu":
+        return op[2] == "-" and op[3] == "-"
+    if op[0] == "ht":
+        return op[2] in ("-", "id") and op[3] == "-"
+    return False
+
+
 def expected_view(case, fb, target):
     """what the property says a read of a non-overridden alias gives:
     ('value', v) | ('fallback',) | ('raises', AttributeError) | None (the property is silent)"""
@@ -555,13 +714,15 @@ def oracle(case):
     fb_before = copy.deepcopy(fb)
     passthrough = bool(case["pass"])
     deprecated = case["kind"] == "dep"
-    checked = case["host"] == "spec" and case["chk"]
+    checked = case["chk"] if case["host"] == "spec" else 0
     ref_ov = MISSING  # the second variable: the local override
     frozen = []  # (instance, snapshot) of instances that must never change again
     handed_out = []
 
     def bad_type(v):
-        return checked and not isinstance(v, int)
+        if checked == 2:
+            return not isinstance(v, _S["sub_spec"])
+        return checked == 1 and not isinstance(v, int)
 
     def check_read(h, where):
         """a read of the alias on `h` against the two variables"""
@@ -617,7 +778,14 @@ def oracle(case):
         name = op[0]
         where = f"op#{n} {' '.join(op)}"
         h = run.cur
-        v = py_val(op[1], case) if len(op) > 1 else None
+        helper = name in HELPER_OPS
+        v = py_val(op[1], case) if len(op) > 1 and not helper else None
+        view0 = alias_view(h) if helper and name != "hr" else None
+        exp = ref_helper_value(case, op, view0) if view0 else None
+        if view0 and view0[0] == "raises" and view0[1] != "AttributeError":
+            exp = None  # the alias cannot be read at all (raising transform, type-confused prefix): the text is silent
+        alias_side = helper or name in ("ra", "wa", "da", "cwa", "cra")
+        ids_before = ident_map(h) if alias_side else None
         before = snapshot(h)
         target_before = observe_target(h, segs)
         parent = observe_target(h, segs[:-1])
@@ -627,17 +795,18 @@ def oracle(case):
         raised = r[4:] if r.startswith("err ") else None
         new = run.cur
         after = snapshot(new)
-        cow = name in ("cp", "cwa", "cra", "cwt", "cdt")
+        cow = name in ("cp", "cwa", "cra", "cwt", "cdt") or (helper and op[1] == "c")
         if cow and raised is None:
             frozen.append((h, before))
         if raised is not None and after != before:
             viol.append(f"{where}: raised {raised} but the instance changed: {before} -> {after}")
         # warnings: exactly one per access that reaches the alias; none for anything else
-        alias_op = name in ("ra", "wa", "da", "cwa", "cra")
+        alias_op = alias_side
         if not deprecated or not alias_op:
             if nw != 0:
                 viol.append(f"{where}: {nw} warnings emitted")
-        elif nw < 1 and not (name in ("wa", "cwa") and raised == "TypeError"):
+        elif nw < 1 and not (name in ("wa", "cwa") and raised == "TypeError") and not (helper and name != "hr" and raised):
+            # (a helper that fails while it computes the value, or at the type check, may not have touched the alias)
             # "warns on every access": at least once (a read that ends in AttributeError on a spec class runs the
             # descriptor twice, because the class's __getattr__ hook retries __getattribute__)
             viol.append(f"{where}: DeprecatedAlias emitted no warning for an access")
@@ -665,7 +834,35 @@ def oracle(case):
                         viol.append(f"{where}: passthrough write stored a local override")
                 elif prefix_ok and raised not in ("TypeError",):
                     viol.append(f"{where}: passthrough write raised {raised} although the parent of the target exists")
-        elif name in ("da", "cra"):
+        elif name in ("hw", "hu", "ht"):
+            # assignment through a generated helper: the value is what the helper's contract says (when it says)
+            if exp == ("raises",):
+                if raised is None:
+                    viol.append(f"{where}: the helper accepted arguments that cannot be applied to the value")
+            elif exp is not None and bad_type(exp[1]):
+                if raised != "TypeError":
+                    viol.append(f"{where}: ill-typed value {show_val(exp[1])} accepted by the managed alias attribute ({r})")
+            elif not passthrough:
+                if raised is not None:
+                    if exp is not None:
+                        viol.append(f"{where}: local assignment through the helper raised {raised}")
+                else:
+                    ref_ov = exp[1] if exp is not None else override_of(new)
+                    if ref_ov is MISSING:
+                        viol.append(f"{where}: the helper stored no local value")
+                    if after[0] != before[0]:
+                        viol.append(f"{where}: local assignment through the helper modified the host: {before[0]} -> {after[0]}")
+                    if not noop_inplace(op) and mutable_ids(override_of(new)) & mutable_ids(new):
+                        viol.append(f"{where}: the local value shares a mutable object with the instance's own tree (the target)")
+            else:
+                if raised is None:
+                    if exp is not None and observe_target(new, segs) != exp[1]:
+                        viol.append(f"{where}: passthrough assignment through the helper did not reach the target")
+                    if after[1]:
+                        viol.append(f"{where}: passthrough assignment through the helper stored a local override")
+                elif exp is not None and prefix_ok and raised not in ("TypeError",):
+                    viol.append(f"{where}: passthrough assignment through the helper raised {raised} although the parent of the target exists")
+        elif name in ("da", "cra", "hr"):
             if not passthrough:
                 if ov_before is not MISSING:
                     if raised is not None:
@@ -692,6 +889,16 @@ def oracle(case):
                 viol.append(f"{where}: deepcopy differs from the original: {before} vs {after}")
         if cow and raised is not None and ref_ov is not ov_before:
             ref_ov = ov_before
+        # operations on a non-passthrough alias (and reads of any alias) leave every object of the receiver's tree
+        # in place: the target is the SAME object afterwards (its content is compared above / by the frozen snapshots)
+        if alias_side and (not passthrough or name == "ra") and ident_map(h) != ids_before:
+            viol.append(f"{where}: an object of the receiver's tree was replaced: {ids_before} -> {ident_map(h)}")
+        # a copy-on-write helper hands back an instance that shares no mutable object with the receiver
+        if cow and raised is None:
+            mine = mutable_ids(h) | mutable_ids(override_of(h))
+            theirs = mutable_ids(new) | mutable_ids(override_of(new))
+            if mine & theirs:
+                viol.append(f"{where}: the new instance shares a mutable object with the receiver")
         check_read(run.cur, where)
         for inst, snap in frozen:
             if snapshot(inst) != snap:
@@ -720,10 +927,131 @@ FALLBACKS = ["-", "i0", "L7,8", "L"]  # falsy scalar, truthy mutable, falsy muta
 MORE_FALLBACKS = ["-", "i0", "i5", "s0", "s1", "L7,8", "L"]
 
 
+def nested_tok(case, n):
+    """a nested instance (of the nested spec class on spec hosts) whose attribute x holds n"""
+    return f"Nx:{n}" if case["host"] == "spec" else f"N:{n}"
+
+
 def values_for(case):
     """the value pool of a case: the empty list is left out when the fallback is the empty list (a read could not
-    tell the two apart by value)"""
-    return [v for v in VALUES if not (v == "L" and case["fb"] == "L")]
+    tell the two apart by value); a nested instance is part of every pool"""
+    return [v for v in VALUES if not (v == "L" and case["fb"] == "L")] + [nested_tok(case, 4)]
+
+
+# ---- generated helpers on the alias attribute (spec hosts) ----------------------------------------------------
+XF_WHOLE = ["id", "a10", "a-3", "ci7", "cs1", "cL"]  # whole-value transforms: identity, add, constants (int, None, [])
+NEST_ATTRS = ["x=i5", "x=i0", "x=s0", "d=D", "x=i6;d=D"]  # nested keywords (x=s0 is ill-typed)
+NEST_XFS = ["x=a10", "x=id", "x=ci0", "x=cs2", "d=cD", "x=a1;d=id", "d=a1"]  # attribute transforms
+
+
+def helper_ops(case):
+    """every helper line that is a well-formed call for the case's annotation of the alias attribute"""
+    if case["host"] != "spec":
+        return []
+    vals = values_for(case)
+    nested = nested_tok(case, 3)
+    ops = []
+    for io in ("c", "i"):
+        ops += [["hr", io], ["hw", io, "-", "-"]]
+        ops += [["hw", io, v, "-"] for v in vals] + [["hu", io, v, "-"] for v in vals]
+        ops += [["ht", io, f, "-"] for f in XF_WHOLE]
+        if case["chk"] == 2:  # keyword forms exist only when the annotation is a spec class
+            ops += [["hu", io, "-", "-"], ["ht", io, "-", "-"], ["ht", io, "c" + nested, "x=a1"]]
+            for a in NEST_ATTRS:
+                ops += [["hu", io, "-", a], ["hw", io, "-", a], ["hu", io, nested, a], ["hw", io, nested, a]]
+            ops += [["hu", io, "s1", "x=i5"], ["hu", io, "i3", "x=i5"], ["hw", io, "L7", "x=i5"]]
+            for a in NEST_XFS:
+                ops += [["ht", io, "-", a], ["ht", io, "id", a]]
+    return ops
+
+
+def untyped_leaf_shapes(host):
+    """shapes whose target slot accepts any value (a dict item; on plain hosts every slot)"""
+    return [sh for sh in SHAPES if host == "plain" or SHAPES[sh]["segs"][-1][0] == "i"]
+
+
+PV_KINDS = {"int": ["i1", "i0"], "nested": None, "list": ["L7", "L"]}
+
+
+def pv_of(case, kind, rng):
+    return nested_tok(case, rng.choice([1, 0])) if kind == "nested" else rng.choice(PV_KINDS[kind])
+
+
+def helper_single_cases(tier, rng):
+    """every helper line from every (passthrough, annotation, kind of target value, pre-state): not overridden /
+    overridden / target missing / reached through a copy; the other dimensions (alias kind, transform, fallback,
+    shape) are drawn per case. After the helper: read the alias, read the target, drop the local value in place,
+    read again (the live view must be back and the target must be what it was)."""
+    reps = 1 if tier == "quick" else 4
+    for _ in range(reps):
+        for p in (0, 1):
+            for chk in (0, 1, 2):
+                # (a host class per combination is built once per run: a handful per (passthrough, annotation))
+                combos = [(rng.choice(["alias", "alias", "dep", "proxy"]), rng.choice([0, 0, 0, 0, 1, 2]), rng.choice(MORE_FALLBACKS))
+                          for _ in range(6)]
+                for pvk in PV_KINDS:
+                    for pre in ("plain", "overridden", "missing") + (("copied",) if tier != "quick" else ()):
+                        base = {"host": "spec", "pass": p, "chk": chk}
+                        for op in helper_ops(base | {"fb": "-"}):
+                            if tier == "quick" and pvk != "nested" and rng.random() < 0.5:
+                                continue  # quick: a seeded half of the lines per combination with an int / list target
+                            c = dict(base)
+                            c["kind"], c["tr"], c["fb"] = rng.choice(combos)
+                            c["shape"] = rng.choice(list(SHAPES) if pvk == "int" else untyped_leaf_shapes("spec"))
+                            c["init"] = "present"
+                            c["pv"] = pv_of(c, pvk, rng)
+                            if op[0] in ("hw", "hu") and op[2] == "L" and c["fb"] == "L":
+                                continue
+                            ov = {0: rng.choice(["i7", "s1", "L5"]), 1: "i7", 2: nested_tok(c, 8)}[chk]
+                            seq = {"plain": [], "overridden": [["wa", ov]], "missing": [["dt"]], "copied": [["cp"]]}[pre]
+                            c["ops"] = seq + [list(op), ["ra"], ["rt"], ["hr", "i"], ["ra"]]
+                            c["origin"] = "helper-single"
+                            yield c
+
+
+HELPER_CORE = {
+    # annotation -> the core alphabet of the exhaustive helper sequences (None = a value filled in per position)
+    2: [["ra"], ["rt"], ["wt", "N"], ["hu", "i", "-", "x="], ["hu", "c", "-", "x="], ["ht", "i", "-", "x=a"], ["hw", "i", "N", "-"],
+        ["hr", "i"], ["ht", "c", "id", "-"]],
+    0: [["ra"], ["rt"], ["wt", "V"], ["hu", "i", "V", "-"], ["hu", "c", "V", "-"], ["ht", "i", "a", "-"], ["ht", "c", "id", "-"],
+        ["ht", "i", "id", "-"], ["hr", "i"]],
+}
+
+
+def fill_helper_values(case, seq, nseq):
+    """distinct values per position, so that every write can be told from every other"""
+    out = []
+    for n, op in enumerate(seq):
+        k = 10 * (n + 1) + nseq % 7
+        op = list(op)
+        if op[0] == "wt":
+            op[1] = nested_tok(case, k) if op[1] == "N" else [f"i{k}", f"L{k}", "s1", nested_tok(case, k)][(n + nseq) % 4]
+        elif op[0] in ("hu", "hw") and op[2] == "N":
+            op[2] = nested_tok(case, k + 1)
+        elif op[0] == "hu" and op[2] == "V":
+            op[2] = [f"i{k + 2}", f"L{k + 2}", "s0"][(n + nseq) % 3]
+        elif op[0] == "hu" and op[3] == "x=":
+            op[3] = f"x=i{k + 3}"
+        elif op[0] == "ht" and op[3] == "x=a":
+            op[3] = f"x=a{k + 4}"
+        elif op[0] == "ht" and op[2] == "a":
+            op[2] = f"a{k + 5}"
+        out.append(op)
+    return out
+
+
+def helper_seq_cases(tier, rng):
+    """ALL sequences of the helper alphabets up to the tier's length for sampled configurations: annotation = nested
+    spec class with a nested target, annotation = Any with int / list / nested targets; passthrough or not."""
+    L, per = (3, 1) if tier == "quick" else (4, 1)
+    for chk in (2, 0):
+        for p in (0, 1):
+            for _ in range(per):
+                c = {"host": "spec", "pass": p, "chk": chk, "kind": rng.choice(["alias", "dep"]), "tr": 0,
+                     "fb": rng.choice(FALLBACKS), "shape": rng.choice(untyped_leaf_shapes("spec")), "init": "present"}
+                c["pv"] = pv_of(c, "nested" if chk == 2 else rng.choice(list(PV_KINDS)), rng)
+                for nseq, seq in enumerate(itertools.product(HELPER_CORE[chk], repeat=L)):
+                    yield {**c, "ops": fill_helper_values(c, seq, nseq), "origin": f"helper-seq-{L}"}
 
 
 def cow_target_ok(shape):
@@ -808,9 +1136,11 @@ def fill_values(ops, phase=0, case=None):
     return out
 
 
-def random_ops(case, rng, n):
+def random_ops(case, rng, n, helpers=0.3):
+    """`helpers` = share of helper lines among the operations on spec hosts"""
     pool = all_ops(case)
-    return sanitize(case, [list(rng.choice(pool)) for _ in range(n)])
+    hpool = helper_ops(case)
+    return sanitize(case, [list(rng.choice(hpool if hpool and rng.random() < helpers else pool)) for _ in range(n)])
 
 
 def random_config(rng):
@@ -822,10 +1152,12 @@ def random_config(rng):
         "pass": rng.choice([0, 1]),
         "tr": rng.choice([0, 1, 2]),
         "fb": rng.choice(MORE_FALLBACKS),
-        "chk": rng.choice([0, 1]) if host == "spec" else 0,
+        "chk": rng.choice([0, 1, 2]) if host == "spec" else 0,
         "shape": shape,
         "init": rng.choice(INITS[:2] if shape == "P" else INITS),
-        "pv": rng.choice(["i1", "i0"]),  # initial value of a present target: truthy or falsy
+        # initial value of a present target: truthy or falsy; a nested instance or a list where the slot takes one
+        "pv": rng.choice(["i1", "i0"] + (["i1", nested_tok({"host": host}, 1), nested_tok({"host": host}, 0), "L7", "L"]
+                                           if shape in untyped_leaf_shapes(host) else [])),
     }
 
 
@@ -980,7 +1312,7 @@ def gen_cases(tier, rng):
     # 1. every single op (followed by a read of alias and target) from every configuration
     cfgs = list(configs(trs=(0, 1, 2) if not quick else (0, 1)))
     if quick:
-        cfgs = rng.sample(cfgs, len(cfgs) // 2)
+        cfgs = rng.sample(cfgs, len(cfgs) * 27 // 100)
     for c in cfgs:
         for op in all_ops(c):
             yield {**c, "pv": rng.choice(["i1", "i0"]), "ops": [list(op), ["ra"], ["rt"]], "origin": "single-op"}
@@ -989,6 +1321,10 @@ def gen_cases(tier, rng):
         if c["host"] == "spec" and c["shape"] == "P" and c["init"] == "present":
             for v in values_for(c):
                 yield {**c, "ctor": v, "ops": [["ra"], ["rt"], ["da"], ["ra"]], "origin": "ctor"}
+    # 2b. the generated helpers on the alias attribute: every helper line from every pre-state, and all short
+    #     sequences of the helper alphabets
+    yield from helper_single_cases(tier, rng)
+    yield from helper_seq_cases(tier, rng)
     # 3. ALL sequences of the core alphabet of length L (their prefixes are compared line by line, so this covers
     #    every length <= L) for a seeded sample of configurations; the samples cycle through shapes and hosts
     plan = [(3, 10, 10), (4, 1, 1)] if quick else [(4, 30, 30), (5, 2, 4), (6, 1, 0)]
@@ -1012,9 +1348,16 @@ def gen_cases(tier, rng):
     # 4. seeded random sequences (full alphabet, all value kinds) for every configuration
     nper = 2 if quick else 12
     maxlen = 5 if quick else 6
-    for c in configs(kinds=("alias", "dep", "proxy"), trs=(0, 1, 2)):
-        for _ in range(nper):
-            yield {**c, "pv": rng.choice(["i1", "i0"]), "ops": random_ops(c, rng, rng.randint(3, maxlen)), "origin": "random"}
+    annotated = [c for c in configs(chks=(2,)) if c["host"] == "spec"]  # alias annotated with the nested spec class
+    for c in itertools.chain(configs(kinds=("alias", "dep", "proxy"), trs=(0, 1, 2)), annotated):
+        for _ in range(nper if c["chk"] != 2 else (nper + 1) // 2):
+            pvs = ["i1", "i0"]
+            if c["shape"] in untyped_leaf_shapes(c["host"]):
+                pvs += [nested_tok(c, 1), "L7"]
+            # (quick: the dedicated helper parts above carry the helper lines; each first use of a helper on one of
+            # the ~1200 host classes of this part builds the method, which is what costs here)
+            share = 0.3 if c["chk"] == 2 or not quick else 0.12
+            yield {**c, "pv": rng.choice(pvs), "ops": random_ops(c, rng, rng.randint(3, maxlen), share), "origin": "random"}
 
 
 def shrink(case, at=None):
@@ -1068,7 +1411,7 @@ def tags(case, real):
 KNOWN_MATCHERS = {}
 
 MANIFEST_ENTRY = {
-    "level_text": "Lean 4 proof about an executable model of Alias/DeprecatedAlias (host = tree of attribute maps and string-keyed dicts; lookup/assign/remove along attr/item paths with CPython's exception classes; descriptor get/set/delete with the per-instance override, transform, fallback copy and the AttributeError/KeyError conversion; type-checked managed attribute on spec classes; deepcopy and copy-on-write helpers as instances left behind): for every configuration, every state and every operation sequence (induction) an alias without local value reads the transformed live target, a local assignment shadows it without touching the host and is read back until deleted, deletion restores the live view and a second one raises, passthrough writes/deletes reach the target and never create an override, a missing target gives a new fallback copy each time or AttributeError, earlier instances never change, DeprecatedAlias differs from Alias by exactly one warning per access, lookup/assign satisfy the lens laws, and the hand-written tokenizer (language of ATTR_PARSER plus the join check) round-trips with the renderer; the model is tied to /repo on every run by executing single operations from every configuration, all core-alphabet sequences for sampled configurations and random sequences on plain and spec classes and on the model, comparing value, exception class, warning count, host tree, override and every earlier instance after each step, and by comparing the accesses a parsed path performs on a recording host for exhaustive short strings, rendered and mutated paths.",
+    "level_text": "Lean 4 proof about an executable model of Alias/DeprecatedAlias (host = tree of attribute maps and string-keyed dicts; lookup/assign/remove along attr/item paths with CPython's exception classes; descriptor get/set/delete with the per-instance override, transform, fallback copy and the AttributeError/KeyError conversion; type-checked managed attribute on spec classes; deepcopy and copy-on-write helpers as instances left behind; the generated with_/update_/transform_/reset_<alias> helpers of spec classes as value computation (mutate_value: replacement value, nested keywords, default construction of a missing value, whole-value and attribute transforms, on a private copy of what a READ of the alias gave) followed by the type-checked assignment on the receiver or on a copy): for every configuration, every state and every operation sequence (induction) an alias without local value reads the transformed live target, a local assignment shadows it without touching the host and is read back until deleted, deletion restores the live view and a second one raises, passthrough writes/deletes reach the target and never create an override, a missing target gives a new fallback copy each time or AttributeError, earlier instances never change, every helper call on a non-passthrough alias leaves the host tree (the target) exactly as it was while the alias then reads the computed value and a reset brings the live view of the unmodified target back, a helper on a passthrough alias forwards the computed value to the target, DeprecatedAlias differs from Alias by exactly one warning per access, lookup/assign satisfy the lens laws, and the hand-written tokenizer (language of ATTR_PARSER plus the join check) round-trips with the renderer; the model is tied to /repo on every run by executing single operations from every configuration, all core-alphabet sequences for sampled configurations and random sequences on plain and spec classes and on the model, comparing value, exception class, warning count, host tree, override and every earlier instance after each step, and by comparing the accesses a parsed path performs on a recording host for exhaustive short strings, rendered and mutated paths.",
     "level_note": "Trusted: Lean kernel; axioms propext/Classical.choice/Quot.sound only; the hand-written model and the correspondence harness; ASCII paths with the escapes \\\\ \\' \\\" only; hosts are trees; frozen classes, self-referential aliases and transforms with side effects are outside the model. The theorems are about the model; the per-run correspondence is what ties them to the code. Copy-on-write helpers are modelled by their effect (copy, then the same write), not step by step.",
     "technique": "Lean 4 proof (per-step theorems + induction over operation sequences, lens laws, tokenizer/renderer round trip) over a hand-written model; differential correspondence against the real Alias on plain and spec classes; two-variable reference oracle",
 }
